@@ -314,7 +314,7 @@ static void case_cplx_from(uint64_t m, int torus, int variant /*0 native,1 gener
   rng_t* r = crng();
   gbuf_t gi, go;
   sweep_offsets(rep);
-  int32_t* x = gb_alloc(&gi, 2 * m * 4, 8, 8 * (rep % 8), 4096);
+  int32_t* x = gb_alloc(&gi, 2 * m * 4, 8, 8 * (rep % 8) + 4 * ((rep >> 1) & 1), 4096);  // (an int32 array promises 4-byte alignment only)
   double* out = gb_alloc(&go, 2 * m * 8, 8, 8 * ((rep + 1) % 8), 4096);
   gb_prefill(&go, 2, 0);
   for (uint64_t i = 0; i < 2 * m; i++) {
@@ -402,7 +402,7 @@ static void case_cplx_to_tnx32(uint64_t m, int variant, unsigned ovh, int dexp, 
   gbuf_t gi, go;
   sweep_offsets(rep);
   double* x = gb_alloc(&gi, 2 * m * 8, 8, 8 * (rep % 8), 4096);
-  int32_t* out = gb_alloc(&go, 2 * m * 4, 8, 8 * ((rep + 1) % 8), 4096);
+  int32_t* out = gb_alloc(&go, 2 * m * 4, 8, 8 * ((rep + 1) % 8) + 4 * ((rep >> 1) & 1), 4096);  // (an int32 array promises 4-byte alignment only)
   gb_prefill(&go, 1, 0);
   double* ratio = malloc(2 * m * 8);
   gen_ratios(r, 2 * m, 18, ratio, rep);
